@@ -12,16 +12,18 @@ Fixpoint pure (v : val) : bool :=
   match v with VNil => true | VF _ _ _ u => pure u | _ => false end.
 
 (* every cell is a root (a factory as the pool builds them: no back-reference, no converted
-   error; extension factories made with FactoryOf) or derived (back-reference to a root) *)
+   error; extension factories made with FactoryOf) or derived (back-reference to a root).  A
+   derived error may itself have been turned into a factory with FactoryOf ("sub-factory"). *)
 Inductive shape (st : store) (c : cell) : Prop :=
 | ShRoot :
-    g_fref (c_g c) = VNil -> g_serr (c_g c) = VNil ->
+    g_fref (c_g c) = VNil -> g_serr (c_g c) = VNil -> g_later (c_g c) = [] ->
     (forall x, c_x c = Some x -> g_isfac (c_g c) = true) -> shape st c
 | ShDer o co :
     g_fref (c_g c) = VG o -> nth_error st o = Some co ->
-    g_fref (c_g co) = VNil -> g_serr (c_g co) = VNil ->
+    g_fref (c_g co) = VNil -> g_serr (c_g co) = VNil -> g_later (c_g co) = [] ->
     (forall x, c_x co = Some x -> g_isfac (c_g co) = true) ->
-    g_isfac (c_g c) = false -> pure (g_serr (c_g c)) = true -> shape st c.
+    pure (g_serr (c_g c)) = true ->
+    forallb pure (g_later (c_g c)) = true -> shape st c.
 
 Definition wf (st : store) : Prop := forall i c, nth_error st i = Some c -> shape st c.
 
@@ -57,7 +59,8 @@ Definition admissible (st : store) (v : val) : Prop :=
 
 (* a pool cell: a factory as programs build them *)
 Definition root_cell (c : cell) : Prop :=
-  g_fref (c_g c) = VNil /\ g_serr (c_g c) = VNil /\ (forall x, c_x c = Some x -> g_isfac (c_g c) = true).
+  g_fref (c_g c) = VNil /\ g_serr (c_g c) = VNil /\ g_later (c_g c) = []
+  /\ (forall x, c_x c = Some x -> g_isfac (c_g c) = true).
 
 (* a wiring table records the converted error only behind the early return *)
 Definition guarded_wiring (xw : method -> wiring) : Prop :=
@@ -68,7 +71,9 @@ Inductive reachable (xw : method -> wiring) : store -> Prop :=
 | reach_pool st : Forall root_cell st -> reachable xw st
 | reach_call st v m a st' r :
     reachable xw st -> admissible st (a_err a) -> call xw st v m a = Some (st', r) ->
-    reachable xw st'.
+    reachable xw st'
+| reach_factory_of st i :
+    reachable xw st -> reachable xw (set_isfac st i).
 
 (* ---------------------------------------------------------------- histories (judged cases) *)
 Inductive vref :=
@@ -92,12 +97,24 @@ Definition resolve (st : store) (fs : list val) (r : vref) : val :=
 Definition op_args (st : store) (fs : list val) (o : hop) : margs :=
   mkA (o_src o) (o_dtag o) (o_fmt o) (resolve st fs (o_err o)) (o_orig o) (o_site o) (o_derived o).
 
-(* run a history; returns the final store and, per operation, the cell of its result *)
-Fixpoint run_ops (xw : method -> wiring) (st : store) (fs : list val) (ops : list hop)
+(* a step of a history: a method call, or FactoryOf applied to the value of cell i *)
+Inductive hstep := HOp (o : hop) | HFac (i : nat).
+
+(* run a history; returns the final store and, per step, the cell of its result *)
+Fixpoint run_ops (xw : method -> wiring) (st : store) (fs : list val) (ops : list hstep)
   : option (store * list nat) :=
   match ops with
   | [] => Some (st, [])
-  | o :: rest =>
+  | HFac i :: rest =>
+      match nth_error st i with
+      | None => None
+      | Some _ =>
+          match run_ops xw (set_isfac st i) fs rest with
+          | None => None
+          | Some (st'', ks) => Some (st'', i :: ks)
+          end
+      end
+  | HOp o :: rest =>
       match call xw st (resolve st fs (o_recv o)) (o_m o) (op_args st fs o) with
       | None => None
       | Some (st', v) =>
@@ -129,11 +146,20 @@ Definition ref_cell (r : vref) : option nat :=
 
 Definition dummy_info : binfo := mkB 0 false false None false.
 
-(* result cell expected for each operation and the infos of all cells after the history *)
-Fixpoint spec_ops (infos : list binfo) (ops : list hop) : list binfo * list (option nat) :=
+Fixpoint mark_fac (infos : list binfo) (i : nat) : list binfo :=
+  match infos, i with
+  | [], _ => []
+  | b :: r, O => mkB (b_orig b) (b_root b) true (b_conv b) (b_conv_before b) :: r
+  | b :: r, S k => b :: mark_fac r k
+  end.
+
+(* result cell expected for each step and the infos of all cells after the history *)
+Fixpoint spec_ops (infos : list binfo) (ops : list hstep) : list binfo * list (option nat) :=
   match ops with
   | [] => (infos, [])
-  | o :: rest =>
+  | HFac i :: rest =>
+      let '(inf, rs) := spec_ops (mark_fac infos i) rest in (inf, Some i :: rs)
+  | HOp o :: rest =>
       match ref_cell (o_recv o) with
       | None => (infos, [])
       | Some ri =>
@@ -151,28 +177,53 @@ Fixpoint spec_ops (infos : list binfo) (ops : list hop) : list binfo * list (opt
       end
   end.
 
-(* what the property determines about errors.Is(x, y); None = only "does not panic" *)
-Definition spec_is (infos : list binfo) (fs : list val) (x y : vref) : option bool :=
-  match x, y with
-  | RC a, RC b =>
-      let ia := nth a infos dummy_info in let ib := nth b infos dummy_info in
-      if b_root ib then Some (Nat.eqb (b_orig ia) b)
-      else if Nat.eqb (b_orig ia) (b_orig ib) then Some true else None
-  | RC a, RF k =>
-      match b_conv (nth a infos dummy_info) with
-      | Some k' => if Nat.eqb k' k && comparable (nth k fs VNil) then Some true else None
-      | None => None
-      end
-  | RF k, RC b =>
-      match b_conv (nth b infos dummy_info) with
-      | Some k' => if Nat.eqb k' k then Some false else None
-      | None => None
-      end
-  | _, _ => None
+(* the gerror value a foreign error wraps (through any number of foreign wrappers), if any *)
+Fixpoint wrapped_cell (v : val) : option nat :=
+  match v with
+  | VF _ _ _ u => wrapped_cell u
+  | VG i | VX i => Some i
+  | VNil => None
   end.
 
-(* ExtractFactoryReference: the factory for derived errors, the factory itself for a FactoryOf
-   root; None = the property is silent (a bare root used directly) *)
+(* errors.Is between the values of two cells (as handed out, or through the embedded pointer) *)
+Definition spec_cells (infos : list binfo) (a b : nat) : option bool :=
+  let ia := nth a infos dummy_info in let ib := nth b infos dummy_info in
+  if b_root ib then Some (Nat.eqb (b_orig ia) b)
+  else if Nat.eqb (b_orig ia) (b_orig ib) then Some true else None.
+
+(* what the property determines about errors.Is(x, y); None = only "does not panic" *)
+Definition spec_is (infos : list binfo) (fs : list val) (x y : vref) : option bool :=
+  match ref_cell x, ref_cell y with
+  | Some a, Some b => spec_cells infos a b
+  | Some a, None =>
+      match y with
+      | RF k =>
+          match b_conv (nth a infos dummy_info) with
+          | Some k' => if Nat.eqb k' k && comparable (nth k fs VNil) then Some true else None
+          | None => None
+          end
+      | _ => None
+      end
+  | None, Some b =>
+      match x with
+      | RF k =>
+          match wrapped_cell (nth k fs VNil) with
+          | Some c => spec_cells infos c b        (* a wrapper is matched through what it wraps *)
+          | None =>
+              match b_conv (nth b infos dummy_info) with
+              | Some k' => if Nat.eqb k' k then Some false else None
+              | None => None
+              end
+          end
+      | _ => None
+      end
+  | None, None => None
+  end.
+
+(* ExtractFactoryReference: the value itself for anything made a factory with FactoryOf, the
+   originating factory for other derived errors; None = the property is silent (a bare root
+   used directly) *)
 Definition spec_extract (infos : list binfo) (a : nat) : option (option nat) :=
   let ia := nth a infos dummy_info in
-  if b_root ia then (if b_isfac ia then Some (Some a) else None) else Some (Some (b_orig ia)).
+  if b_isfac ia then Some (Some a)
+  else if b_root ia then None else Some (Some (b_orig ia)).
